@@ -290,32 +290,40 @@ End Walk.
 
 From RM Require Import Proofs.SliderEventsFacts Proofs.SliderEventsIEEE.
 
-Definition ev_params (start dur vel td total : F64) (n : Z) : SliderEvents.params F64 :=
-  SliderEvents.mkP start dur vel td total n.
+(* SliderEventsIter::new(..).collect() with explicit fuel (number of events
+   pulled / iterations of Iterator::next's loop, and tick-loop iterations);
+   Model/DrvEnc.v uses 10^6 for both *)
+Definition events_with (fuel tf : nat) (start dur vel td total : F64) (n : Z) : outcome (list EncEvent) :=
+  obind (SliderEvents.run SliderEvents.ops64 false fuel tf (SliderEvents.mkP start dur vel td total n) [])
+        (fun l => Done (map (fun e => mkEncEv (DrvEnc.kind_idx (SliderEvents.ev_kind e)) (SliderEvents.ev_span e)
+                                              (SliderEvents.ev_time e)) l)).
+
+Lemma events_real_is : DrvEnc.events_real = events_with DrvEnc.ev_fuel DrvEnc.ev_fuel.
+Proof. reflexivity. Qed.
 
 (* SliderEventsIter::new(..).collect() panics only inside new(), and there
    exactly when total_dist < 0 (C20_new_panics_iff, C20_no_panic_after_new) *)
-Lemma events_real_panic start dur vel td total n w :
+Lemma events_with_panic fuel tf start dur vel td total n w :
   0 <= n <= i32_max ->
-  DrvEnc.events_real start dur vel td total n = Panic w -> D.lt total D.zero = true.
+  events_with fuel tf start dur vel td total n = Panic w -> D.lt total D.zero = true.
 Proof.
-  intros Hn. unfold DrvEnc.events_real.
-  destruct (SliderEvents.run SliderEvents.ops64 false DrvEnc.ev_fuel DrvEnc.ev_fuel
+  intros Hn. unfold events_with.
+  destruct (SliderEvents.run SliderEvents.ops64 false fuel tf
               (SliderEvents.mkP start dur vel td total n) []) as [l|w'|] eqn:E; cbn [obind]; try discriminate.
   intros _.
-  pose proof (run_no_panic SliderEvents.ops64 false DrvEnc.ev_fuel DrvEnc.ev_fuel
+  pose proof (run_no_panic SliderEvents.ops64 false tf fuel
                 (SliderEvents.mkP start dur vel td total n) [] w' Hn E) as Hnew.
   pose proof (iter_new_panics_iff (SliderEvents.mkP start dur vel td total n) []) as C.
   cbn [SliderEvents.p_total] in C.
   destruct (D.lt total D.zero); [reflexivity|]. destruct C as (x & C). congruence.
 Qed.
 
-Lemma events_real_avoids_panic start dur vel td total n :
+Lemma events_with_avoids_panic fuel tf start dur vel td total n :
   0 <= n <= i32_max -> nn64 total = true ->
-  avoids BPanic (DrvEnc.events_real start dur vel td total n).
+  avoids BPanic (events_with fuel tf start dur vel td total n).
 Proof.
   intros Hn Ht. apply avoids_panic_iff. intros w E.
-  pose proof (events_real_panic _ _ _ _ _ _ _ Hn E) as H. rewrite nn64_lt_zero, Ht in H. discriminate.
+  pose proof (events_with_panic _ _ _ _ _ _ _ _ _ Hn E) as H. rewrite nn64_lt_zero, Ht in H. discriminate.
 Qed.
 
 (* the decidable class outside of which the encoder cannot panic: the map is
@@ -339,7 +347,9 @@ Proof. vm_compute. discriminate. Qed.
 
 Section Real.
   Variable lm : Curve.Libm.
+  Variables fuel tf : nat.
   Notation dreal := (DrvEnc.dist_real lm).
+  Notation ereal := (events_with fuel tf).
 
   Lemma fin_real h : obj_fin (dist_of_curve lm) h -> obj_fin dreal h.
   Proof.
@@ -357,7 +367,7 @@ Section Real.
   (* one slider: both event calls avoid a panic when its distance is not negative *)
   Lemma slider_events_avoid_panic mode version tick_rate slider_mult c h :
     cp_sorted c -> obj_fin dreal h -> neg_dist_slider lm h = false ->
-    events_avoid dreal DrvEnc.events_real BPanic mode version tick_rate slider_mult c h.
+    events_avoid dreal ereal BPanic mode version tick_rate slider_mult c h.
   Proof.
     unfold obj_fin, events_avoid, neg_dist_slider. intros Hc Hf Hn.
     destruct (h_kind h) as [ci|s|sp|hd]; try exact I.
@@ -366,19 +376,19 @@ Section Real.
     assert (Hnn : nn64 d = true) by (rewrite nn64_lt_zero in Hn; destruct (nn64 d); [reflexivity|discriminate]).
     assert (Hrange : 0 <= sl_repeat_count s + 1 <= i32_max) by (pose proof repeat_cap_i32; lia).
     split; intros _.
-    - apply (slider_events_args dreal DrvEnc.events_real BPanic _ _ _ _ _ d Hc Hr0 Hd).
-      intros dur vel td. apply events_real_avoids_panic; assumption.
-    - apply (juicestream_events_args dreal DrvEnc.events_real BPanic _ _ _ _ _ _ d Hc Hr0 Hd).
-      intros dur vel td. apply events_real_avoids_panic; assumption.
+    - apply (slider_events_args dreal ereal BPanic _ _ _ _ _ d Hc Hr0 Hd).
+      intros dur vel td. apply events_with_avoids_panic; assumption.
+    - apply (juicestream_events_args dreal ereal BPanic _ _ _ _ _ _ d Hc Hr0 Hd).
+      intros dur vel td. apply events_with_avoids_panic; assumption.
   Qed.
 
   Lemma events_avoid_other_modes b mode version tick_rate slider_mult c h :
     mode <> 0 -> mode <> 2 ->
-    events_avoid dreal DrvEnc.events_real b mode version tick_rate slider_mult c h.
+    events_avoid dreal ereal b mode version tick_rate slider_mult c h.
   Proof. intros H0 H2. unfold events_avoid. destruct (h_kind h); try exact I. split; intros E; contradiction. Qed.
 
   Theorem map_avoids_panic m : map_shape dreal m -> neg_dist_class lm m = false ->
-    map_events_avoid dreal DrvEnc.events_real BPanic m.
+    map_events_avoid dreal ereal BPanic m.
   Proof.
     intros (Hc & Hf) Hn. unfold map_events_avoid, neg_dist_class in *.
     set (mode := g_mode (hov_general (bmv_ho m))) in *.
@@ -395,7 +405,7 @@ Section Real.
   (* THE ENCODER NEVER PANICS ON A DECODED MAP outside [neg_dist_class] *)
   Theorem encode_no_panic_outside lines bv w :
     decode_beatmap (dist_of_curve lm) lines = Done bv -> neg_dist_class lm bv = false ->
-    encode_tokens dreal DrvEnc.events_real bv <> Panic w.
+    encode_tokens dreal ereal bv <> Panic w.
   Proof.
     intros H Hn. pose proof (decoded_shape lines bv H) as Hm.
     apply avoids_panic_iff. apply encode_avoids; [exact Hm|].
@@ -405,7 +415,7 @@ Section Real.
   (* ... and a panic, if there is one, is the D18 panic of some slider *)
   Corollary encode_panic_is_D18 lines bv w :
     decode_beatmap (dist_of_curve lm) lines = Done bv ->
-    encode_tokens dreal DrvEnc.events_real bv = Panic w ->
+    encode_tokens dreal ereal bv = Panic w ->
     (g_mode (hov_general (bmv_ho bv)) = 0 \/ g_mode (hov_general (bmv_ho bv)) = 2) /\
     exists h s d, In h (hov_hit_objects (bmv_ho bv)) /\ h_kind h = KSlider s /\
       dist_of_curve lm (sl_mode s) (sl_control_points s) (sl_expected_dist s) = Done d /\
@@ -477,7 +487,7 @@ Section Real.
   Theorem encode_no_panic_surplus lines bv w :
     decode_beatmap (dist_of_curve lm) lines = Done bv ->
     Forall obj_surplus_nn (hov_hit_objects (bmv_ho bv)) ->
-    encode_tokens dreal DrvEnc.events_real bv <> Panic w.
+    encode_tokens dreal ereal bv <> Panic w.
   Proof.
     intros H Hs. apply (encode_no_panic_outside lines bv w H).
     exact (surplus_class_empty bv (decoded_shape lines bv H) Hs).
@@ -492,7 +502,7 @@ Section Real.
     decode_beatmap (dist_of_curve lm) lines = Done bv ->
     (g_mode (hov_general (bmv_ho bv)) <> 0 /\ g_mode (hov_general (bmv_ho bv)) <> 2) \/
     existsb obj_osu_catmull (hov_hit_objects (bmv_ho bv)) = false ->
-    encode_tokens dreal DrvEnc.events_real bv <> Panic w.
+    encode_tokens dreal ereal bv <> Panic w.
   Proof.
     intros H [(H0 & H2)|Hc].
     - apply (encode_no_panic_outside lines bv w H). unfold neg_dist_class.
